@@ -127,6 +127,22 @@ Outcome RunC02(RunCtx& ctx)
 			g2.maxNodes = 12;
 			otherShape = GenDocument(s, sim::L_DOC, g2);
 		}
+		// 1 run in 4: the reading program has Required() members the document lacks, so paths are built from the keys of the open scopes
+		if (s.chance(sim::L_PROG, 1, 4))
+		{
+			uint32_t idx = 0;
+			ForEachNode(useOtherShape ? otherShape : doc, [&](DynNode& n)
+			{
+				if (n.kind != K::Obj || !s.chance(sim::L_PROG, 1, 2)) return;
+				Key k;
+				k.s = "reqAbsent" + std::to_string(idx++);
+				n.keys.push_back(k);
+				DynNode r(K::I32);
+				r.required = true;
+				n.items.push_back(r);
+			});
+			if (idx) ctx.count("failing_validators");
+		}
 		if (ctx.describe) ctx.note("document: " + Pretty(doc) + (useOtherShape ? "  target shape: " + Pretty(otherShape) : ""));
 	}
 	const std::string validBytes = bytes;
